@@ -79,14 +79,14 @@ func (s *sim) generate() (Action, bool) {
 		}
 	}
 	prof := s.cfg.Profile
-	w := map[string]int{"boot": 100, "stop": 3, "get_c": 10, "tmpl": 4, "run_script": 6, "open": 6, "bad": 3, "line": 8, "out": 8, "close": 4, "sleep": 3, "del_cache": 1, "probe": 2, "io": 2, "burst": 2, "regen": 1}
+	w := map[string]int{"boot": 100, "stop": 3, "get_c": 10, "tmpl": 4, "run_script": 6, "open": 6, "bad": 3, "line": 8, "out": 8, "close": 4, "sleep": 3, "del_cache": 1, "probe": 2, "io": 2, "burst": 2, "regen": 1, "pre": 2}
 	switch prof {
 	case "C05":
 		w["stop"], w["get_c"], w["run_script"], w["close"], w["del_cache"], w["regen"] = 8, 12, 8, 8, 2, 3
 	case "C07":
 		w["get_c"], w["tmpl"], w["run_script"], w["stop"], w["burst"] = 30, 12, 8, 2, 8
 	case "C12":
-		w["open"], w["bad"], w["line"], w["out"], w["close"], w["sleep"], w["get_c"], w["io"] = 12, 6, 10, 10, 5, 6, 3, 4
+		w["open"], w["bad"], w["line"], w["out"], w["close"], w["sleep"], w["get_c"], w["io"], w["pre"] = 12, 6, 10, 10, 5, 6, 3, 4, 6
 	}
 	add(s.genBoot(), w["boot"])
 	add(Action{K: "stop"}, w["stop"])
@@ -100,7 +100,21 @@ func (s *sim) generate() (Action, bool) {
 	add(Action{K: "burst_c", N: r.Range(2, 6), Which: []string{"", "hold"}[r.Intn(2)]}, w["burst"])
 	add(Action{K: "probe"}, w["probe"])
 	add(Action{K: "sleep", Ms: []int{1, 100, 1900, 2100, 5000, 60000}[r.Intn(6)]}, w["sleep"])
+	add(Action{K: "preconnect"}, w["pre"])
 	live := s.liveSession()
+	if live == nil && len(s.pre) > 0 {
+		// a request on a connection that was made a while ago
+		add(Action{K: "open_io", S: len(s.sess), Pre: true}, w["pre"]*2)
+		add(Action{K: "open_in", S: len(s.sess), ID: fmt.Sprintf("id%d", len(s.sess)), Pre: true}, w["pre"])
+	}
+	if live != nil && live.io == nil && len(s.pre) > 0 {
+		if live.in == nil {
+			add(Action{K: "open_in", S: live.n, Pre: true}, w["pre"]*2)
+		}
+		if live.out == nil {
+			add(Action{K: "open_out", S: live.n, Pre: true}, w["pre"]*2)
+		}
+	}
 	if live == nil {
 		id := fmt.Sprintf("id%d", len(s.sess))
 		if r.Chance(1, 2) {
